@@ -7,16 +7,26 @@ package main
 //   rw:N:SEQ    a DEEP COPY of GetCodonTable(N) (default tables share their slices, known finding C08),
 //               re-weighted with OptimizeTable(SEQ)
 //   txt:TEXT    parseTableText(TEXT)
-// Every op that takes a table spec returns as its first value the text form of the table it used when the
-// spec is rw: (the table is an output of OptimizeTable then), and "" otherwise; op "table" always returns it.
+// Every op that takes a table spec returns as its first value the text form of the table it used (for id: the
+// driver compares it with the regenerated default table, for rw: it is the output of OptimizeTable).
+//
+// Translate is always preceded by a throw-away call on a two-letter sequence with the same table: a correct
+// Translate keeps no state between calls, so this changes nothing; an implementation that lets a trailing
+// partial codon survive a call (pooled buffers …) is exposed on every case.
 
 import (
 	"errors"
 	"fmt"
+	"math/rand"
+	"reflect"
+	"runtime/debug"
 	"sort"
 	"strconv"
 	"strings"
+	"time"
 	"verifharness/runner"
+
+	"github.com/mroth/weightedrand"
 
 	"github.com/TimothyStiles/poly/random"
 	"github.com/TimothyStiles/poly/transform/codon"
@@ -47,12 +57,9 @@ func c0607Table(spec string) (codon.Table, error) {
 	return codon.Table{}, errors.New("bad table spec")
 }
 
-// usedTable is the table text reported back: only for re-weighted tables
+// usedTable is the table text reported back
 func usedTable(spec string, t codon.Table) string {
-	if strings.HasPrefix(spec, "rw:") {
-		return tableText(t)
-	}
-	return ""
+	return tableText(t)
 }
 
 func c06Translate(s string, t codon.Table) (st, val string) {
@@ -61,6 +68,7 @@ func c06Translate(s string, t codon.Table) (st, val string) {
 			st, val = "panic", fmt.Sprint(p)
 		}
 	}()
+	_, _ = codon.Translate("GT", t) // throw-away call that ends in a partial codon (see the header)
 	v, err := codon.Translate(s, t)
 	if err != nil {
 		return "err", ""
@@ -218,6 +226,12 @@ func init() {
 			}
 			return "ok", s
 		}()
+		// same seed, same protein (the generator is re-seeded by every call)
+		if pst == "ok" {
+			if again, err := random.ProteinSequence(length, seed); err != nil || again != p {
+				pst = "nondeterministic"
+			}
+		}
 		ost, dna, tst, tv := "-", "", "-", ""
 		if pst == "ok" {
 			ost, dna = c07Optimize(p, t)
@@ -226,5 +240,252 @@ func init() {
 			}
 		}
 		return []string{pst, p, usedTable(a[2], t), ost, dna, tst, tv}, nil
+	})
+}
+
+// ---------------------------------------------------------------- the weighted pick itself
+
+type modelChooser struct {
+	items  []string
+	totals []int
+	max    int
+}
+
+// parseChoices reads "ITEM=w,ITEM=w,..." in order
+func parseChoices(s string) (items []string, weights []int) {
+	for _, e := range strings.Split(s, ",") {
+		if e == "" {
+			continue
+		}
+		kv := strings.SplitN(e, "=", 2)
+		w := 0
+		if len(kv) == 2 {
+			w, _ = strconv.Atoi(kv[1])
+		}
+		items = append(items, kv[0])
+		weights = append(weights, w)
+	}
+	return
+}
+
+func weightedrandVersion() string {
+	if bi, ok := debug.ReadBuildInfo(); ok {
+		for _, d := range bi.Deps {
+			if d.Path == "github.com/mroth/weightedrand" {
+				if d.Replace != nil {
+					return d.Version + "=>" + d.Replace.Path + "@" + d.Replace.Version
+				}
+				return d.Version
+			}
+		}
+	}
+	return "unknown"
+}
+
+func joinInts2(xs []int) string {
+	var p []string
+	for _, x := range xs {
+		p = append(p, strconv.Itoa(x))
+	}
+	return strings.Join(p, ",")
+}
+
+func init() {
+	// pick CHOICES SEEDS -> version of github.com/mroth/weightedrand, the chooser's data ("ITEM=w,…" in the order
+	// NewChooser left them), its totals, its max (all three read with reflect from the unexported fields), and for
+	// every seed "r=ITEM": r is what rand.Intn(max)+1 returns right after rand.Seed(seed); ITEM is what Pick()
+	// returns right after the same rand.Seed(seed).
+	runner.Register("pick", func(a []string) ([]string, error) {
+		items, weights := parseChoices(a[0])
+		var cs []weightedrand.Choice
+		for i := range items {
+			cs = append(cs, weightedrand.Choice{Item: items[i], Weight: uint(weights[i])})
+		}
+		ch := weightedrand.NewChooser(cs...)
+		v := reflect.ValueOf(ch)
+		fd, ft, fm := v.FieldByName("data"), v.FieldByName("totals"), v.FieldByName("max")
+		if !fd.IsValid() || !ft.IsValid() || !fm.IsValid() || fd.Kind() != reflect.Slice || ft.Kind() != reflect.Slice {
+			return nil, errors.New("weightedrand.Chooser does not have the fields data/totals/max")
+		}
+		var data []string
+		for i := 0; i < fd.Len(); i++ {
+			c := fd.Index(i)
+			data = append(data, fmt.Sprint(c.FieldByName("Item").Elem().String())+"="+strconv.FormatUint(c.FieldByName("Weight").Uint(), 10))
+		}
+		var totals []int
+		for i := 0; i < ft.Len(); i++ {
+			totals = append(totals, int(ft.Index(i).Int()))
+		}
+		max := int(fm.Int())
+		var draws []string
+		for _, sd := range strings.Split(a[1], ",") {
+			if sd == "" {
+				continue
+			}
+			seed, _ := strconv.ParseInt(sd, 10, 64)
+			one := func() (res string) {
+				defer func() {
+					if p := recover(); p != nil {
+						res = "panic"
+					}
+				}()
+				rand.Seed(seed)
+				r := rand.Intn(max) + 1
+				rand.Seed(seed)
+				item := ch.Pick().(string)
+				return strconv.Itoa(r) + "=" + item
+			}()
+			draws = append(draws, one)
+		}
+		return []string{weightedrandVersion(), strings.Join(data, ","), joinInts2(totals), strconv.Itoa(max), strings.Join(draws, ",")}, nil
+	})
+
+	// optfreqmix SPEC protein calls -> table, "L:TRIPLET=count,…;K:…" (per residue letter, sorted), calls that did not return ok
+	runner.Register("optfreqmix", func(a []string) ([]string, error) {
+		t, err := c0607Table(a[0])
+		if err != nil {
+			return nil, err
+		}
+		calls, _ := strconv.Atoi(a[2])
+		p := a[1]
+		counts := map[string]map[string]int{}
+		bad := 0
+		for i := 0; i < calls; i++ {
+			st, dna := c07Optimize(p, t)
+			if st != "ok" || len(dna) != 3*len(p) {
+				bad++
+				continue
+			}
+			for j := 0; j < len(p); j++ {
+				l := p[j : j+1]
+				if counts[l] == nil {
+					counts[l] = map[string]int{}
+				}
+				counts[l][dna[3*j:3*j+3]]++
+			}
+		}
+		var letters []string
+		for l := range counts {
+			letters = append(letters, l)
+		}
+		sort.Strings(letters)
+		var parts []string
+		for _, l := range letters {
+			var keys []string
+			for k := range counts[l] {
+				keys = append(keys, k)
+			}
+			sort.Strings(keys)
+			var es []string
+			for _, k := range keys {
+				es = append(es, k+"="+strconv.Itoa(counts[l][k]))
+			}
+			parts = append(parts, l+":"+strings.Join(es, ","))
+		}
+		return []string{usedTable(a[0], t), strings.Join(parts, ";"), strconv.Itoa(bad)}, nil
+	})
+
+	// optpairs SPEC protein calls -> table, counts of the codon pairs at positions (2i, 2i+1) "TRIPLETTRIPLET=count,…", bad calls
+	runner.Register("optpairs", func(a []string) ([]string, error) {
+		t, err := c0607Table(a[0])
+		if err != nil {
+			return nil, err
+		}
+		calls, _ := strconv.Atoi(a[2])
+		p := a[1]
+		counts := map[string]int{}
+		bad := 0
+		for i := 0; i < calls; i++ {
+			st, dna := c07Optimize(p, t)
+			if st != "ok" || len(dna) != 3*len(p) {
+				bad++
+				continue
+			}
+			for j := 0; j+6 <= len(dna); j += 6 {
+				counts[dna[j:j+6]]++
+			}
+		}
+		var keys []string
+		for k := range counts {
+			keys = append(keys, k)
+		}
+		sort.Strings(keys)
+		var es []string
+		for _, k := range keys {
+			es = append(es, k+"="+strconv.Itoa(counts[k]))
+		}
+		return []string{usedTable(a[0], t), strings.Join(es, ","), strconv.Itoa(bad)}, nil
+	})
+
+	// optreplay SPEC protein CHOOSERS -> table, status, dna, found, offset, "r1,r2,…"
+	// CHOOSERS = "L:ITEM=w,ITEM=w;K:…": per residue letter the choices in the order the MODEL says NewChooser leaves them.
+	// Optimize seeds math/rand with the wall clock in nanoseconds. The clock is read before and after the call; for
+	// every nanosecond s in that window (and a margin) the harness re-seeds with s and replays the model's picks
+	// (r := rand.Intn(max)+1, first total >= r) until it finds the seed that reproduces the real output. It reports the
+	// draws r_i of that seed; the driver then checks `optimize … rs = dna` on the Lean model. No seed found => found=0.
+	runner.Register("optreplay", func(a []string) ([]string, error) {
+		t, err := c0607Table(a[0])
+		if err != nil {
+			return nil, err
+		}
+		p := a[1]
+		choosers := map[string]*modelChooser{}
+		for _, e := range strings.Split(a[2], ";") {
+			kv := strings.SplitN(e, ":", 2)
+			if len(kv) != 2 {
+				continue
+			}
+			items, weights := parseChoices(kv[1])
+			mc := &modelChooser{items: items}
+			for _, w := range weights {
+				mc.max += w
+				mc.totals = append(mc.totals, mc.max)
+			}
+			choosers[kv[0]] = mc
+		}
+		t0 := time.Now().UnixNano()
+		st, dna := c07Optimize(p, t)
+		t1 := time.Now().UnixNano()
+		if st != "ok" {
+			return []string{usedTable(a[0], t), st, "", "0", "0", ""}, nil
+		}
+		runes := []rune(p)
+		if len(dna) != 3*len(runes) {
+			return []string{usedTable(a[0], t), st, dna, "0", "0", ""}, nil
+		}
+		try := func(seed int64, record bool) (bool, []int) {
+			rand.Seed(seed)
+			var rs []int
+			for i, aa := range runes {
+				mc := choosers[string(aa)]
+				if mc == nil || mc.max <= 0 {
+					return false, nil
+				}
+				r := rand.Intn(mc.max) + 1
+				j := sort.SearchInts(mc.totals, r)
+				if j >= len(mc.items) || mc.items[j] != dna[3*i:3*i+3] {
+					return false, nil
+				}
+				if record {
+					rs = append(rs, r)
+				}
+			}
+			return true, rs
+		}
+		// the seed was read between t0 and t1; a margin on both sides is searched last
+		var cands []int64
+		for s := t0; s <= t1; s++ {
+			cands = append(cands, s)
+		}
+		for d := int64(1); d <= 2000; d++ {
+			cands = append(cands, t1+d, t0-d)
+		}
+		for _, s := range cands {
+			if ok, _ := try(s, false); ok {
+				_, rs := try(s, true)
+				return []string{usedTable(a[0], t), st, dna, "1", strconv.FormatInt(s-t0, 10), joinInts2(rs)}, nil
+			}
+		}
+		return []string{usedTable(a[0], t), st, dna, "0", strconv.FormatInt(t1-t0, 10), ""}, nil
 	})
 }
